@@ -15,6 +15,13 @@ Qed.
 Lemma class_of_name c : class_of (class_name c) = Some c.
 Proof. destruct c; reflexivity. Qed.
 
+Lemma fill_roundtrip_lemma : forall f, dec_fill (enc_fill f) = Some f.
+Proof. destruct f; reflexivity. Qed.
+
+(* classes without extra fields: well-formed = no getter part; decoding keeps every field as an attribute *)
+Lemma plain_class_lemma : forall c k, getter_fields_of c = [] -> is_getter_field_of c k = false.
+Proof. intros c k H. unfold is_getter_field_of. now rewrite H. Qed.
+
 Section Proofs.
   Variables L E : Type.
   Variable lenc : L -> E.
@@ -58,14 +65,13 @@ Section Proofs.
   Proof.
     destruct p as [c a g]. unfold wf_prop, dec_prop, enc_prop, q_prop. simpl. intros W.
     rewrite class_of_name, <- enc_fields_app, dec_enc_fields.
-    destruct c; try (destruct g; try discriminate; rewrite app_nil_r; reflexivity).
     apply andb_true_iff in W. destruct W as [Wa Wg]. f_equal. f_equal.
-    - rewrite (filter_qf (fun k => negb (is_getter_field k))). f_equal. rewrite filter_app.
-      rewrite (filter_all _ a Wa). rewrite (filter_none (fun kv : string * L => negb (is_getter_field (fst kv))) g).
+    - rewrite (filter_qf (fun k => negb (is_getter_field_of c k))). f_equal. rewrite filter_app.
+      rewrite (filter_all _ a Wa). rewrite (filter_none (fun kv : string * L => negb (is_getter_field_of c (fst kv))) g).
       + apply app_nil_r.
       + rewrite forallb_forall in *. intros x Hx. rewrite negb_involutive. auto.
-    - rewrite (filter_qf is_getter_field). f_equal. rewrite filter_app.
-      rewrite (filter_none (fun kv : string * L => is_getter_field (fst kv)) a Wa). simpl.
+    - rewrite (filter_qf (is_getter_field_of c)). f_equal. rewrite filter_app.
+      rewrite (filter_none (fun kv : string * L => is_getter_field_of c (fst kv)) a Wa). simpl.
       now apply filter_all.
   Qed.
 
